@@ -14,6 +14,9 @@ type PathRule[S comparable] struct {
 	Transfer func(s S, ins ssa.Instruction) []S
 	// Branch refines s on the taken edge of a conditional; ok=false prunes the edge.
 	Branch func(s S, cond ssa.Value, taken bool) (S, bool)
+	// Phi (optional) is told, when control flows along an edge into a block,
+	// which value each phi of that block takes (edge = index into Preds).
+	Phi func(s S, phi *ssa.Phi, val ssa.Value) S
 }
 
 type PathResult[S comparable] struct {
@@ -47,6 +50,26 @@ func RunPath[S comparable](r *PathRule[S]) *PathResult[S] {
 	for _, s := range r.Init {
 		add(r.Fn.Blocks[0], s)
 	}
+	addEdge := func(from, to *ssa.BasicBlock, s S) {
+		if r.Phi != nil {
+			idx := -1
+			for i, p := range to.Preds {
+				if p == from {
+					idx = i
+				}
+			}
+			if idx >= 0 {
+				for _, ins := range to.Instrs {
+					ph, ok := ins.(*ssa.Phi)
+					if !ok {
+						break
+					}
+					s = r.Phi(s, ph, ph.Edges[idx])
+				}
+			}
+		}
+		add(to, s)
+	}
 	// Recover block (if any) is entered with the init states as well: it runs
 	// after a recovered panic; rules that care handle it explicitly.
 	for len(work) > 0 {
@@ -62,14 +85,14 @@ func RunPath[S comparable](r *PathRule[S]) *PathResult[S] {
 						ns, ok = r.Branch(s, ifi.Cond, k == 0)
 					}
 					if ok {
-						add(succ, ns)
+						addEdge(it.b, succ, ns)
 					}
 				}
 			}
 		} else {
 			for _, s := range outs {
 				for _, succ := range it.b.Succs {
-					add(succ, s)
+					addEdge(it.b, succ, s)
 				}
 			}
 		}
